@@ -49,10 +49,34 @@ restate C01_vm_refines_sld_call := vm_refines_sld_call
     `altBodies` — against the reference's `splitClause`), of the query and of a called goal.
     Side condition `CallsOK` as for `call/1` (for `\\+ G` also on the goal `G` and, recursively, on
     the nested search).
-    OPEN (see `VmRefinesSldCtlFullStatement`): a non-if-then-else disjunction as a goal INSIDE a
-    conjunction, `','/2` as a predicate, call/N for N ≥ 2.
+    (A non-if-then-else disjunction as a goal INSIDE a conjunction and call/N, 2 ≤ N ≤ 8: see
+    `C01_vm_refines_sld_ctl2`, `C01_vm_refines_sld_callN` below.)
     FINDING: for call/N with N ≥ 9 the VM model answers where the reference (and the Go engine, which
     defines call/1..call/8 only) raises existence_error(procedure, call/N). -/
 restate C01_vm_refines_sld_ctl := vm_refines_sld_ctl
+
+/- **C01_vm_refines_sld_callN** (stage 4a): `CallNFrag` = `CtlFrag` + `call(G, A1, …, Ak)`, 1 ≤ k ≤ 7
+    (call/2 … call/8, what the Go engine defines) as a goal of clause bodies, of the query and of
+    called goals.  VM: `callN` dereferences the closure and appends the arguments (instantiation
+    error for a variable, type_error(callable, _) for a number or string), then `Call` on the goal
+    so built; reference: `addArgs`, then the body of `call/1`.  Side condition `CallsOK` (now also
+    about the goals built by call/N: `callNOK`).  `C01_vm_refines_sld_ctl` is the instance without
+    call/N goals (its side condition has become weaker: called goals may contain call/N).
+    For N ≥ 9 the MODEL and the reference disagree (see above). -/
+restate C01_vm_refines_sld_callN := vm_refines_sld_callN
+
+/- **C01_vm_refines_sld_ctl2** (stage 4b): `Ctl2Frag` = `CallNFrag` + a disjunction `(A ; B)` that is
+    not an if-then-else as a GOAL — a conjunct of a conjunction — in clause bodies, the query and
+    called goals (`A` callable and not `_ -> _`, in particular not a variable; a body that is itself a
+    disjunction is, as before, one alternative per disjunct).  VM: the three clauses of `;`/2 of
+    bootstrap.pl — the heads of the two if-then-else clauses clash with the goal, `P ; Q :-
+    call((P ; Q)).` is a clause frame the reference has no level for; reference: the body of
+    `call((A ; B))` in place of the goal.  A cut inside a disjunct is local to the disjunction.
+    `','/2` in goal position does not arise (conjunctions are flattened on both sides); through
+    call/N it is a called goal.  Side condition `CallsOK` (it covers the `call/1` of the bootstrap
+    clause as well).  This closes what `VmRefinesSldCtlFullStatement` recorded as open, except: a
+    VARIABLE (or a number) as the first alternative of a disjunction goal, and call/N for N ≥ 9
+    (where the model and the reference disagree). -/
+restate C01_vm_refines_sld_ctl2 := vm_refines_sld_ctl2
 
 end PrologVerif.C01
